@@ -1133,7 +1133,7 @@ func c15Sig() ct.DigitallySigned {
 func (e *c15Env) opSetUp(cfg *configpb.LogConfig, m c15Meta) {
 	ctx := context.Background()
 	external := cfg.ExtraDataIssuanceChainStorageBackend == configpb.LogConfig_ISSUANCE_CHAIN_STORAGE_BACKEND_CTFE
-	if external && !strings.HasPrefix(cfg.CtfeStorageConnectionString, "postgres") {
+	if parts := strings.Split(cfg.CtfeStorageConnectionString, "://"); external && (len(parts) != 2 || (parts[0] != "postgres" && parts[0] != "postgresql")) {
 		// storage/mysql.open connects (SET sql_mode) and the constructor exits the process when that fails; the
 		// PostgreSQL storage only opens a lazy handle, so external-storage instances are set up with those strings
 		return
